@@ -53,3 +53,37 @@ Theorem c11_replay : forall mac (session : Type) (unseal : str -> str -> option 
   snd (manager_load mac session unseal (kv_get st) cfg cs now) = None.
 Proof. exact replay_after_delete. Qed.
 Print Assumptions c11_replay.
+
+(* ---- a sign-out racing a request that refreshes the same session (Model/SignOutRace.v) ---- *)
+From V.Model Require SignOutRace.
+From V.Proofs Require SignOutRaceProofs.
+
+(* with a provider that answers every refresh call: for EVERY interleaving of the two requests' store,
+   lock and provider operations (any schedule, any length), once both are finished the stored session
+   is gone (finite reachable state set, computed and shown closed under both requests' moves) *)
+Theorem c11_signout_race_reliable_provider : forall sched,
+  SignOutRace.both_done (SignOutRace.run SignOutRace.reliable SignOutRace.init sched) = true ->
+  SignOutRace.store (SignOutRace.run SignOutRace.reliable SignOutRace.init sched) = None.
+Proof. exact SignOutRaceProofs.signout_race_reliable_provider. Qed.
+Print Assumptions c11_signout_race_reliable_provider.
+
+(* without that proviso the clause is false of the faithful model and of the code (known finding F21):
+   the provider fails the sign-out request's own refresh call and answers the next one; the other
+   request's save lands after the delete and the session is stored again although sign-out succeeded *)
+Theorem c11_signout_race_refuted :
+  exists answers sched,
+    SignOutRace.both_done (SignOutRace.run answers SignOutRace.init sched) = true /\
+    SignOutRace.p_out (SignOutRace.run answers SignOutRace.init sched) = SignOutRace.PDone (SignOutRace.Served 0%nat) /\
+    SignOutRace.store (SignOutRace.run answers SignOutRace.init sched) = Some 1%nat.
+Proof. exact SignOutRaceProofs.signout_race_refuted. Qed.
+Print Assumptions c11_signout_race_refuted.
+
+(* the same with a provider that always answers, when the session's age crosses the refresh period
+   between the two requests' evaluations of it *)
+Theorem c11_signout_race_refuted_at_boundary :
+  exists sched,
+    SignOutRace.both_done (SignOutRace.run SignOutRace.reliable SignOutRace.init_boundary sched) = true /\
+    SignOutRace.p_out (SignOutRace.run SignOutRace.reliable SignOutRace.init_boundary sched) = SignOutRace.PDone (SignOutRace.Served 0%nat) /\
+    SignOutRace.store (SignOutRace.run SignOutRace.reliable SignOutRace.init_boundary sched) = Some 1%nat.
+Proof. exact SignOutRaceProofs.signout_race_refuted_at_boundary. Qed.
+Print Assumptions c11_signout_race_refuted_at_boundary.
